@@ -32,9 +32,9 @@ def setup(tier):
 
 
 def cases(tier, seed):
-    per = 12 if tier == "quick" else 600
+    per = 12 if tier == "quick" else 2500
     out = [dict(c, kind="asm") for c in _embedded.assembly_cases(seed, per * len(gen.enzyme_names()), features=False, max_chain=4)]
-    out += _embedded.registry_assembly_cases(seed, per_vector=1 if tier == "quick" else 6)
+    out += _embedded.registry_assembly_cases(seed, per_vector=1 if tier == "quick" else 20)
     return out
 
 
